@@ -89,11 +89,13 @@ class Buffer:
                 is_correct_xml = False
 
             if is_correct_xml:
+                # a complete element: either a message or junk to be skipped
                 try:
                     message = IndiMessage.from_string(partial)
-                    return message, end
                 except Exception:
                     logger.warning("Buffer: Contents is not a valid message")
+                    message = None
+                return message, end
         return None, None
 
     def process(self, callback: Callable[[IndiMessage], None]):
@@ -101,7 +103,7 @@ class Buffer:
         while self.data_len:
             message, end = self._find_message_in_buffer()
 
-            if not message:
+            if end is None:
                 if (
                     self.max_buffer_size_before_frontal_cleanup is not None
                     and self.data_len > self.max_buffer_size_before_frontal_cleanup
@@ -112,4 +114,5 @@ class Buffer:
 
             self.data = self.data[end:]
             self._cleanup_buffer()
-            callback(message)
+            if message is not None:
+                callback(message)
